@@ -53,6 +53,11 @@ def oracle(src, toks):
     def absidx(l, c):
         if l < 1 or l > nlines or c < 1:
             return None
+        # the column must lie on that line (one past its end is the position of the line break): a position that only
+        # denotes the right character when columns are counted on past the end of its line is wrong
+        line_end = (line_start[l] - 1) if l < nlines else len(chars)
+        if line_start[l - 1] + c - 1 > line_end:
+            return None
         return line_start[l - 1] + c - 1
 
     top = [t for t in toks if t[0] == 0]
